@@ -236,7 +236,7 @@ func H_C06_union() {
 // H_C06_distinct_group: DISTINCT applies to the output rows also when they
 // come from GROUP BY (a projection of the group key can repeat).
 func H_C06_distinct_group() {
-	n := verif.Choose("rows", maxRows(3, 4)+1)
+	n := verif.Choose("rows", 4) // 0..3 rows in both tiers (map-order decisions of a two-column GROUP BY)
 	form := verif.Choose("form", 2)
 	verif.Opt("maporder", 3)
 	doc, rows := numTable(n, "a", "b")
